@@ -100,7 +100,23 @@ pub fn catch<T>(f: impl FnOnce() -> T) -> Result<T, PanicInfo> {
     if publish {
         generic_begin();
     }
+    // ... and of the memory monitor: unless the caller measures a window of its own (C04), the
+    // call may not hold more than HARD_CAP_BYTES above what this thread held when it began.  A
+    // library call that grows without bound is then parked and reported by the watchdog instead of
+    // the operating system killing the process (which would leave no verdict).
+    ensure_registered();
+    let own_window = WINDOW_BASE.with(|b| {
+        if b.get() == isize::MIN {
+            b.set(CUR.with(|c| c.get()));
+            true
+        } else {
+            false
+        }
+    });
     let r = catch_unwind(AssertUnwindSafe(f));
+    if own_window {
+        WINDOW_BASE.with(|b| b.set(isize::MIN));
+    }
     if publish {
         generic_end();
     }
@@ -438,7 +454,7 @@ pub fn start_cpu_watchdog(budget_s: u64, on_stuck: impl Fn(&str, &str, &[u8], u6
                 if r.clock as i64 == breach {
                     if let Ok(g) = r.slot.lock() {
                         // cpu_seconds = u64::MAX marks "memory", the byte count goes in the op text
-                        let op = format!("{}|MEM|{}", g.op, bytes);
+                        let op = format!("{}|MEM|{}", if g.active && !g.op.is_empty() { g.op.as_str() } else { "a monitored library call" }, bytes);
                         on_stuck(&op, &g.family, &g.input, u64::MAX);
                         return;
                     }
